@@ -343,3 +343,7 @@ Definition model_accept_iff_wf_O (c : ocase) : bool :=
 Definition model_plain_O (c : ocase) : bool := forallb (fun d => forallb plain_in (od_ins d)) (oc_defs c) && forallb plain_req (oc_req c).
 (* the hypotheses of the request-level theorems hold for the observed request *)
 Definition model_hyps_O (c : ocase) : bool := odefs_okb (oc_defs c) (oc_req c) && decl_okb (oc_defs c) (oc_req c) && one_cfwb (oc_defs c).
+(* everything that must hold of every observed preparation, in one evaluation *)
+Definition chk_everything_O (c : ocase) : bool :=
+  chk_planner_O c && chk_request_outcome_O c && chk_request_plan_O c && model_req_covers_O c && model_struct_O c
+  && model_accept_iff_wf_O c && model_hyps_O c.
